@@ -268,23 +268,35 @@ def run(ctx):
     returned = {x.id for r in walk_no_nested(getb.node) if isinstance(r, ast.Return) and r.value is not None
                 for x in ast.walk(r.value) if isinstance(x, ast.Name)}
     stores = [n for n in stores if any(isinstance(t, ast.Subscript) and t.value.id in returned for t in n.ast.targets)]
-    ctx.floor("R18.5", "listing stores in _get_backups", len(stores), 1)
-    # names unpacked from the consistency check
-    unpack = None
-    for n in walk_no_nested(getb.node):
-        if isinstance(n, ast.Assign) and isinstance(n.value, ast.Call) and call_name(n.value) == "_check_backup_consistency" \
-                and isinstance(n.targets[0], ast.Tuple):
-            unpack = [e.id for e in n.targets[0].elts if isinstance(e, ast.Name)]
-    if not unpack or len(unpack) < 3:
-        raise AnalysisError("R18.5 anchor: tuple result of _check_backup_consistency not unpacked in _get_backups")
-    for s in stores:
+    sites = [(getb, vb, n) for n in stores]
+    if not sites:
+        # the listing written as a dict display over the directory: the entry's value comes from a helper of the class,
+        # and the helper's value-returning exits are the listing points
+        for dc in ast.walk(getb.node):
+            if isinstance(dc, ast.DictComp) and isinstance(dc.value, ast.Call):
+                for k, h in cg.resolve_call(dc.value, getb):
+                    if k == "precise" and h.cls is bm:
+                        vh_ = view(ctx, h)
+                        ctx.saw(h)
+                        sites += [(h, vh_, n) for n in vh_.cfg.nodes if n.kind == "stmt" and isinstance(n.ast, ast.Return)
+                                  and n.ast.value is not None]
+    ctx.floor("R18.5", "listing points of _get_backups", len(sites), 1)
+    for fn, vfn, s in sites:
+        # names unpacked from the consistency check
+        unpack = None
+        for n in walk_no_nested(fn.node):
+            if isinstance(n, ast.Assign) and isinstance(n.value, ast.Call) and call_name(n.value) == "_check_backup_consistency" \
+                    and isinstance(n.targets[0], ast.Tuple):
+                unpack = [e.id for e in n.targets[0].elts if isinstance(e, ast.Name)]
+        if not unpack or len(unpack) < 3:
+            raise AnalysisError("R18.5 anchor: tuple result of _check_backup_consistency not unpacked in %s" % fn.short)
         reqs = [("two-entry test", lambda t: mentions(t, "listdir") and any(
                     isinstance(x, ast.Constant) and x.value == 2 for x in ast.walk(t))),
                 ("files-not-in-record test", lambda t, nm=unpack[1]: mentions(t, nm)),
                 ("record-entries-not-on-disk test", lambda t, nm=unpack[2]: mentions(t, nm))]
         for label, pred in reqs:
-            g = vb.guard_for(s, pred, want_leave=("raise", "continue"))
-            ctx.check(g is not None, "R18.5", getb.qualname, "%s before %s" % (label, norm(s.ast)), loc(getb, s.ast),
+            g = vfn.guard_for(s, pred, want_leave=("raise", "continue"))
+            ctx.check(g is not None, "R18.5", fn.qualname, "%s before %s" % (label, norm(s.ast)), loc(fn, s.ast),
                       "a backup becomes listed without passing the %s: the manager can list a backup whose recorded "
                       "files are missing" % label, desc="listing dominated by the %s" % label)
     # the consistency check itself refuses a missing record / root
